@@ -79,6 +79,16 @@ func (mr mapRange) inBody(b *ssa.BasicBlock) bool {
 	return mr.body != nil && mr.body.Dominates(b) && blockReaches(b, mr.header, nil)
 }
 
+// exitFromBody: b is on a way out of the loop taken from inside the body (`if cond { …; return }`, `break` with
+// statements in front of it): dominated by the body, not leading back to the header. What happens there happens for
+// the element the iteration happened to be at.
+func (mr mapRange) exitFromBody(b *ssa.BasicBlock) bool {
+	if mr.body == nil || !mr.body.Dominates(b) || b == mr.body && false || blockReaches(b, mr.header, nil) {
+		return false
+	}
+	return true
+}
+
 func (mr mapRange) keyVal() (key, val ssa.Value) {
 	for _, ref := range *mr.next.Referrers() {
 		if ex, ok := ref.(*ssa.Extract); ok {
@@ -487,10 +497,13 @@ func (c *Ctx) classifyMapRange(mr mapRange) (string, string) {
 		}
 	}
 	for _, b := range mr.fn.Blocks {
-		if !mr.inBody(b) {
+		if !mr.inBody(b) && !mr.exitFromBody(b) {
 			continue
 		}
 		for _, in := range b.Instrs {
+			if _, isRet := in.(*ssa.Return); isRet && !mr.inBody(b) {
+				continue // judged below, by what it hands back
+			}
 			scan(in, false, 0)
 		}
 	}
